@@ -279,14 +279,26 @@ impl Prop for C01 {
     fn gen_case(&self, rng: &mut Rng, tier: Tier, _index: usize) -> Vec<String> {
         gen_crdt_case(rng, tier)
     }
+    fn end(&self) {
+        cleanup_template();
+    }
     fn exec_case(&self, ops: &[String]) -> CaseResult {
         let mut r = CaseResult::default();
         let mut w = CrdtWorld::new();
+        let mut cl: Option<crate::cluster::Cluster> = None;
         let mut final_dumps: BTreeMap<usize, String> = BTreeMap::new();
         let mut tail = true;
         for op in ops {
             let toks: Vec<&str> = op.split_whitespace().collect();
-            let out = exec_crdt(&mut w, &toks);
+            let out = if toks.first().map(|t| t.starts_with('n')).unwrap_or(false) {
+                let c = cl.get_or_insert_with(|| crate::cluster::Cluster::new("c01n"));
+                c.exec(&toks).unwrap_or_else(|| "bad-op".into())
+            } else {
+                exec_crdt(&mut w, &toks)
+            };
+            if out.starts_with("inconclusive") {
+                r.inconclusive = Some(out.clone());
+            }
             if out.starts_with("err") {
                 r.tags.push(out.clone());
             }
